@@ -137,7 +137,7 @@ def tree_hash():
     for root, dirs, files in os.walk(LEAN):
         dirs[:] = sorted(d for d in dirs if d not in ('.lake', 'Gen'))
         for f in sorted(files):
-            if f.endswith('.lean') or f.endswith('.toml'):
+            if f.endswith('.lean') or f.endswith('.toml') or f == 'expected_theorems.json':
                 p = os.path.join(root, f)
                 h.update(p.encode())
                 h.update(open(p, 'rb').read())
@@ -325,6 +325,11 @@ def match_known(v, known):
         elif m.get('kind') == 'bag_mode_pipeline':
             if case.get('entry') == 'join' and case.get('bag_mode') is True and case.get('bag_mode_repeats') is True:
                 return k
+        elif m.get('kind') == 'id_column_clash':
+            kw = case.get('kw') or {}
+            if case.get('entry') == 'join' and 'ValueError' in v.get('what', '') and \
+                    '_id' in (str(kw.get('l_out_prefix', 'l_')) + str(case.get('l_key')), str(kw.get('r_out_prefix', 'r_')) + str(case.get('r_key'))):
+                return k
         elif m.get('kind') == 'tiny_threshold':
             t = case.get('threshold')
             if isinstance(t, float) and 0 < t < float(m['below']):
@@ -464,6 +469,9 @@ def run_oracles(pid, tier, seed, stats, log, mult=1, known_hits=None):
         n = (nq * QUICK_SCALE if tier == 'quick' else nt) * mult
         rng = random.Random('%s-o-%s-%d' % (pid, name, seed))
         t0 = time.time()
+        import suites as S_
+        body_errors0 = S_.BODY_ERRORS
+        S_.BODY_ERRORS = False       # the oracles judge VALID inputs; inputs on which the body raises are injected deliberately (oracle_validation)
         try:
             r = dispatch_oracle(O, name, rng, n, stats, props, known_hits)
         except Infra:
@@ -473,6 +481,8 @@ def run_oracles(pid, tier, seed, stats, log, mult=1, known_hits=None):
             if cv is None:
                 raise
             r = [cv]
+        finally:
+            S_.BODY_ERRORS = body_errors0
         # an oracle reports violations of several properties; this check owns its own property
         # (crashes of valid calls, reported as C15, count for every property: the property cannot hold on a crash)
         mine = [x for x in r if x['property'] == pid or (x['property'] == 'C15' and 'raised' in x['what'])]
